@@ -358,6 +358,17 @@ TNext ==
 
 TSpec == TInit /\ [][TNext]_allvars
 
+\* Bookkeeping of searches that have exited no longer influences anything; hiding it (VIEW) lets
+\* the behaviours that differ only in how an earlier search ran converge, which keeps the number of
+\* states linear in the length of the session.
+Gone(k) == pc[k] \in {"exited", "panicked"}
+Canon(f, dflt) == [k \in Searches |-> IF Gone(k) THEN dflt ELSE f[k]]
+TView == <<inbox, closed, nsent, goSent, stopSince, mainpc, cur, pendingGo, pc, Canon(kind, "lim"), Canon(flag, FALSE),
+           Canon(iters, 0), Canon(saved, FALSE), bests, Canon(infos, 0), Canon(stopped, FALSE),
+           readyOwed, readySent, readyAns, refused, pos, Canon(posOf, 0),
+           l, sess, shist, sstack, gsess, ghist, goq, pend, Canon(sOf, C!StartState), Canon(tOf, 0), Canon(limOf, NoLim),
+           Canon(dOf, 0), tStop, readyQ, quitSent, lastT, pp>>
+
 \* Acceptance: some behaviour consumes the whole trace (then this "invariant" is violated).
 NotDone == l <= N
 \* Longest matched prefix, kept in a TLC register (single worker).
